@@ -35,7 +35,7 @@ def diff_against_ref(t, r):
 
 def run(ctx):
     rep, drv = ctx.rep, ctx.driver
-    if drv is None:
+    if getattr(drv, "unavailable", False):
         rep.violation("driver-build", "model driver does not build (generated tables malformed?)",
                       {"kind": "driver"}, found_input=False)
         return
